@@ -3,6 +3,7 @@ package gse
 import (
 	"fmt"
 	"go/token"
+	"os"
 	"runtime/debug"
 	"sort"
 	"strings"
@@ -56,6 +57,12 @@ type pathState struct {
 	thread      int
 	readRunes   int
 	lastPanic   string
+	vals        map[*Term]*Term
+	simpMemo    map[*Term]*Term
+	model       map[*Term]*Term
+	modelMemo   map[*Term]*Term
+	modelN      int
+	savedQ      int
 }
 
 // Violation is a candidate counterexample (to be replayed natively before it is reported).
@@ -104,11 +111,29 @@ func (m *Machine) addPC(c *Term) {
 	}
 	p.pc = append(p.pc, c)
 	m.notePC(c)
+	if p.model != nil {
+		if v, ok := m.evalModel(c); !ok || !v {
+			p.model, p.modelMemo = nil, nil
+		}
+	}
 }
 
 func (m *Machine) notePC(c *Term) {
 	p := m.path
 	p.pcSet[c] = true
+	p.simpMemo = nil
+	switch c.Op {
+	case OEq:
+		// var = const: remember the value so later terms fold
+		a, b := c.Args[0], c.Args[1]
+		if a.Op == OVar && b.IsConst() {
+			p.vals[a] = b
+		} else if b.Op == OVar && a.IsConst() {
+			p.vals[b] = a
+		}
+	case OVar:
+		p.vals[c] = m.ts.True
+	}
 	switch c.Op {
 	case OAnd:
 		m.notePC(c.Args[0])
@@ -117,8 +142,136 @@ func (m *Machine) notePC(c *Term) {
 		if o := c.Args[0]; o.Op == OOr {
 			m.notePC(m.ts.Not(o.Args[0]))
 			m.notePC(m.ts.Not(o.Args[1]))
+		} else if o.Op == OVar {
+			p.vals[o] = m.ts.False
 		}
 	}
+}
+
+// simp rewrites t under the literals and variable values the path condition has fixed.
+func (m *Machine) simp(t *Term) *Term {
+	p := m.path
+	if t.Op == OConst {
+		return t
+	}
+	if len(p.vals) == 0 && len(p.pcSet) == 0 {
+		return t
+	}
+	if p.simpMemo == nil {
+		p.simpMemo = map[*Term]*Term{}
+	}
+	return m.simpRec(t, p.vals, p.simpMemo, true)
+}
+
+// evalModel evaluates t under the cached model; ok only if it folds to a constant.
+func (m *Machine) evalModel(t *Term) (bool, bool) {
+	p := m.path
+	if p.model == nil {
+		return false, false
+	}
+	r := m.simpRec(t, p.model, p.modelMemo, false)
+	if r.IsConst() && r.Sort == SBool {
+		return r.B, true
+	}
+	return false, false
+}
+
+// fetchModel caches the model of the last Sat answer (values of all nondeterministic inputs).
+func (m *Machine) fetchModel() {
+	p := m.path
+	p.model, p.modelMemo = nil, nil
+	if len(p.nondet) == 0 {
+		return
+	}
+	ts := make([]*Term, len(p.nondet))
+	for i, n := range p.nondet {
+		ts[i] = n.t
+	}
+	vals, ok := m.sol.GetValues(ts)
+	if !ok {
+		return
+	}
+	p.model = map[*Term]*Term{}
+	p.modelMemo = map[*Term]*Term{}
+	p.modelN = len(p.nondet)
+	for i, v := range vals {
+		switch v.Sort {
+		case SBool:
+			p.model[ts[i]] = m.ts.Bool(v.B)
+		case SBV:
+			p.model[ts[i]] = m.ts.BV(v.I, v.W)
+		}
+	}
+}
+
+func (m *Machine) simpRec(t *Term, vals map[*Term]*Term, memo map[*Term]*Term, usePC bool) *Term {
+	p := m.path
+	switch t.Op {
+	case OConst:
+		return t
+	case OVar:
+		if v, ok := vals[t]; ok {
+			return v
+		}
+		return t
+	}
+	if r, ok := memo[t]; ok {
+		return r
+	}
+	if usePC && t.Sort == SBool {
+		if p.pcSet[t] {
+			memo[t] = m.ts.True
+			return m.ts.True
+		}
+		if p.pcSet[m.ts.Not(t)] {
+			memo[t] = m.ts.False
+			return m.ts.False
+		}
+	}
+	args := make([]*Term, len(t.Args))
+	changed := false
+	for i, a := range t.Args {
+		args[i] = m.simpRec(a, vals, memo, usePC)
+		if args[i] != a {
+			changed = true
+		}
+	}
+	r := t
+	if changed {
+		ts := m.ts
+		switch t.Op {
+		case ONot:
+			r = ts.Not(args[0])
+		case OAnd:
+			r = ts.And(args[0], args[1])
+		case OOr:
+			r = ts.Or(args[0], args[1])
+		case OIte:
+			r = ts.Ite(args[0], args[1], args[2])
+		case OEq:
+			r = ts.Eq(args[0], args[1])
+		case OAdd, OSub, OMul, OUDiv, OURem, OSDiv, OSRem, OBAnd, OBOr, OBXor, OShl, OLShr, OAShr:
+			r = ts.BinBV(t.Op, args[0], args[1])
+		case OULt, OULe, OSLt, OSLe:
+			r = ts.CmpBV(t.Op, args[0], args[1])
+		case ONeg:
+			r = ts.Neg(args[0])
+		case OBNot:
+			r = ts.BNot(args[0])
+		case OZext:
+			r = ts.Resize(args[0], t.W, false)
+		case OSext:
+			r = ts.Resize(args[0], t.W, true)
+		case OTrunc:
+			r = ts.Resize(args[0], t.W, false)
+		case OConcat:
+			r = ts.Concat(args...)
+		case OStrLen:
+			r = ts.StrLen(args[0])
+		}
+	}
+	memo[t] = r
+	return r
 }
 
 // implied returns (value, true) when the path condition syntactically decides c.
@@ -129,31 +282,6 @@ func (m *Machine) implied(c *Term) (bool, bool) {
 	}
 	if p.pcSet[m.ts.Not(c)] {
 		return false, true
-	}
-	switch c.Op {
-	case OAnd:
-		a, oka := m.implied(c.Args[0])
-		b, okb := m.implied(c.Args[1])
-		if (oka && !a) || (okb && !b) {
-			return false, true
-		}
-		if oka && okb {
-			return true, true
-		}
-	case OOr:
-		a, oka := m.implied(c.Args[0])
-		b, okb := m.implied(c.Args[1])
-		if (oka && a) || (okb && b) {
-			return true, true
-		}
-		if oka && okb {
-			return false, true
-		}
-	case ONot:
-		v, ok := m.implied(c.Args[0])
-		if ok {
-			return !v, true
-		}
 	}
 	return false, false
 }
@@ -188,6 +316,10 @@ func (m *Machine) branch(c *Term) bool {
 	if c.IsConst() {
 		return c.B
 	}
+	c = m.simp(c)
+	if c.IsConst() {
+		return c.B
+	}
 	if v, ok := m.implied(c); ok {
 		return v
 	}
@@ -207,15 +339,35 @@ func (m *Machine) branch(c *Term) bool {
 		return d
 	}
 	nc := m.ts.Not(c)
-	if m.check(c) == Unsat {
-		p.decisions = append(p.decisions, false)
-		m.addPC(nc)
-		return false
-	}
-	if m.check(nc) == Unsat {
-		p.decisions = append(p.decisions, true)
-		m.addPC(c)
-		return true
+	mv, mok := m.evalModel(c)
+	if mok && mv {
+		// the cached model already witnesses c; only the other side needs the solver
+		p.savedQ++
+		if m.check(nc) == Unsat {
+			p.decisions = append(p.decisions, true)
+			m.addPC(c)
+			return true
+		}
+	} else if mok && !mv {
+		p.savedQ++
+		if m.check(c) == Unsat {
+			p.decisions = append(p.decisions, false)
+			m.addPC(nc)
+			return false
+		}
+		m.fetchModel()
+	} else {
+		if m.check(c) == Unsat {
+			p.decisions = append(p.decisions, false)
+			m.addPC(nc)
+			return false
+		}
+		m.fetchModel()
+		if m.check(nc) == Unsat {
+			p.decisions = append(p.decisions, true)
+			m.addPC(c)
+			return true
+		}
 	}
 	sib := make([]bool, len(p.decisions)+1)
 	copy(sib, p.decisions)
@@ -257,8 +409,11 @@ func (m *Machine) assume(c *Term) {
 		return
 	}
 	if !m.replaying() {
-		if m.check(c) == Unsat {
-			m.endPath(OutAssume, "assumption infeasible")
+		if v, ok := m.evalModel(c); !(ok && v) {
+			if m.check(c) == Unsat {
+				m.endPath(OutAssume, "assumption infeasible")
+			}
+			m.fetchModel()
 		}
 	}
 	m.addPC(c)
@@ -323,6 +478,7 @@ func (m *Machine) vnAssert(id string, c *Term) {
 		return
 	}
 	p.reached[id]++
+	c = m.simp(c)
 	if c.IsConst() && c.B {
 		return
 	}
@@ -334,8 +490,11 @@ func (m *Machine) vnAssert(id string, c *Term) {
 	if c.IsConst() {
 		m.endPath(OutAssume, "assert failed on whole path")
 	}
-	if m.check(c) == Unsat {
-		m.endPath(OutAssume, "assert failed on whole path")
+	if v, ok := m.evalModel(c); !(ok && v) {
+		if m.check(c) == Unsat {
+			m.endPath(OutAssume, "assert failed on whole path")
+		}
+		m.fetchModel()
 	}
 	m.addPC(c)
 }
@@ -414,7 +573,7 @@ func (m *Machine) modelObs() []string {
 
 // RunPath executes one harness path following prefix.
 func (m *Machine) RunPath(h *HarnessSpec, prefix []bool, wantSample bool) (res PathResult) {
-	p := &pathState{prefix: prefix, pcSet: map[*Term]bool{}, reached: map[string]int{}, knownSeen: map[string]int{}, expect: map[Outcome]bool{}, assumptions: map[string]bool{}}
+	p := &pathState{prefix: prefix, pcSet: map[*Term]bool{}, reached: map[string]int{}, knownSeen: map[string]int{}, expect: map[Outcome]bool{}, assumptions: map[string]bool{}, vals: map[*Term]*Term{}}
 	m.path = p
 	m.depth = 0
 	m.instrs = 0
@@ -527,6 +686,21 @@ func Explore(P *Program, h *HarnessSpec, workers int, sampleEvery int, maxSample
 	problems := map[string]int{}
 	violPerID := map[string]int{}
 	var wg sync.WaitGroup
+	stopProg := make(chan struct{})
+	if os.Getenv("GSE_PROGRESS") != "" {
+		go func() {
+			for {
+				select {
+				case <-stopProg:
+					return
+				case <-time.After(5 * time.Second):
+					mu.Lock()
+					fmt.Fprintf(os.Stderr, "[%s] %.0fs paths=%d frontier=%d active=%d outcomes=%v instrs=%d\n", h.Name, time.Since(t0).Seconds(), res.Paths, len(frontier), active, res.ByOutcome, res.Instrs)
+					mu.Unlock()
+				}
+			}
+		}()
+	}
 	for w := 0; w < workers; w++ {
 		wg.Add(1)
 		go func(w int) {
@@ -610,6 +784,7 @@ func Explore(P *Program, h *HarnessSpec, workers int, sampleEvery int, maxSample
 		}(w)
 	}
 	wg.Wait()
+	close(stopProg)
 	for k, c := range problems {
 		res.Problems = append(res.Problems, fmt.Sprintf("%s (x%d)", k, c))
 	}
